@@ -222,6 +222,7 @@ def _vacuity(sub: str, st: Counter, extra: dict[str, Counter]) -> list[str]:
 def run(ctx: Ctx, only: tuple[str, ...] = SUBS, item_filter: Any = None) -> Result:
     """`only` / `item_filter` restrict the run (used by detection demos); a restricted run reports
     exhaustive=False for the sub-enumerations it cut."""
+    scratch("c12")  # fix the scratch root in THIS process: every fork below inherits it, one sweep at exit
     cache = run_isolated(_warm_cache, 0, timeout=900)
     items, spaces = _all_items(ctx, cache, only)
     if item_filter is not None:
@@ -366,6 +367,7 @@ def replay(ctx: Ctx, rec: dict) -> Result:
     d = rec["detail"]
     sub = d["sub"]
     viol: list[Violation] = []
+    scratch("c12")
     if sub == "calls":
         cache = run_isolated(_warm_cache, 0, timeout=900)
         r = c12_calls.replay_one(d, cache)
